@@ -1257,11 +1257,20 @@ impl Exec {
                 self.viol("C20", "close-count", format!("an open of kind {kind} (succeeded: {opened_ok}) called close() {cc} times"));
             }
         }
-        // the original file must still open and hold the model's contents
+        // the file must still open and hold the model's contents: the original one, or -- when the
+        // failing open was an I/O fault in the middle of a recovery or of the open-time bookkeeping
+        // -- what that open left on the medium, in a crash state (C08: a failed operation never
+        // corrupts what was committed)
+        let (image, faulted) = if kind == 4 {
+            let s = d.st();
+            (if arg % 3 == 0 { s.durable.clone() } else { s.live.clone() }, true)
+        } else {
+            (image, false)
+        };
         match self.open_image(image, cache) {
             Ok(()) => {
-                if kind == 3 || kind == 5 {
-                    if !self.resync_after_recovery("C01") {
+                if kind == 3 || kind == 5 || faulted {
+                    if !self.resync_after_recovery(if faulted { "C08" } else { "C01" }) {
                         self.dead_end = true;
                     }
                 } else {
